@@ -101,3 +101,10 @@ Proof.
   revert c; induction a as [|x a IH]; intros [|y c] E Hl; cbn in *; try discriminate; [tauto|].
   injection E as -> E. destruct (IH c E ltac:(lia)) as [-> ->]. tauto.
 Qed.
+
+Lemma firstn_app_exact_l {A} (a b : list A) : firstn (length a) (a ++ b) = a.
+Proof. induction a; cbn; [reflexivity|]. now f_equal. Qed.
+
+Lemma skipn_app_exact_l {A} (a b : list A) : skipn (length a) (a ++ b) = b.
+Proof. induction a; cbn; auto. Qed.
+
